@@ -633,6 +633,65 @@ Section SanitizeProofs.
     apply Hne. exact (NoDup_map_In_inj _ _ _ _ _ _ E H1 H2 Hs).
   Qed.
 
+  (* all definition-level name sources of one call: definition keys, the titled
+     root, patch renames *)
+  Lemma type_patch_nil : forall n, type_patch [] n = n.
+  Proof. intro n. reflexivity. Qed.
+
+  Lemma batch_names_nil_patch : forall defs,
+      batch_type_names cls [] defs None = def_idents cls defs.
+  Proof.
+    intro defs. unfold batch_type_names, def_idents. rewrite app_nil_r.
+    apply map_ext. intro d. apply type_patch_nil.
+  Qed.
+
+  Theorem add_batch_defs_only : forall defs, add_batch cls [] defs None = add_definitions cls defs.
+  Proof.
+    intro defs. unfold add_batch, add_definitions. rewrite batch_names_nil_patch. reflexivity.
+  Qed.
+
+  Theorem add_batch_distinct_or_err : forall patch defs title ids,
+      add_batch cls patch defs title = Ok ids ->
+      NoDup ids /\ ids = batch_type_names cls patch defs title /\
+      (patch = [] -> Forall (fun i => syn_ident_ok cls i = true) ids).
+  Proof.
+    intros patch defs title ids H. unfold add_batch in H.
+    destruct (unique (batch_type_names cls patch defs title)) eqn:E; [|discriminate].
+    injection H as <-. split; [apply unique_NoDup; exact E|]. split; [reflexivity|].
+    intros ->. apply Forall_forall. intros i Hi. unfold batch_type_names in Hi.
+    apply in_app_or in Hi. destruct Hi as [Hi|Hi].
+    - apply in_map_iff in Hi. destruct Hi as [d [<- _]]. rewrite type_patch_nil. apply sanitize_accepted.
+    - destruct title as [t|]; [|destruct Hi]. destruct Hi as [<-|[]].
+      rewrite type_patch_nil. apply sanitize_accepted.
+  Qed.
+
+  (* the root title takes part in the comparison *)
+  Theorem add_batch_err_title_vs_key : forall patch defs t d,
+      In d defs ->
+      type_patch patch (sanitize cls d Pascal) = type_patch patch (sanitize cls t Pascal) ->
+      add_batch cls patch defs (Some t) = Err.
+  Proof.
+    intros patch defs t d Hd E. unfold add_batch.
+    destruct (unique (batch_type_names cls patch defs (Some t))) eqn:U; [|reflexivity].
+    exfalso. apply unique_NoDup in U. unfold batch_type_names in U.
+    apply NoDup_remove_2 in U. apply U. rewrite app_nil_r. rewrite <- E.
+    apply (in_map (fun x => type_patch patch (sanitize cls x Pascal))). exact Hd.
+  Qed.
+
+  Theorem add_batch_err_key_vs_key : forall patch defs title d1 d2,
+      In d1 defs -> In d2 defs -> d1 <> d2 ->
+      type_patch patch (sanitize cls d1 Pascal) = type_patch patch (sanitize cls d2 Pascal) ->
+      add_batch cls patch defs title = Err.
+  Proof.
+    intros patch defs title d1 d2 H1 H2 Hne E. unfold add_batch.
+    destruct (unique (batch_type_names cls patch defs title)) eqn:U; [|reflexivity].
+    exfalso. apply unique_NoDup in U. unfold batch_type_names in U.
+    assert (Hl : NoDup (List.map (fun x => type_patch patch (sanitize cls x Pascal)) defs)).
+    { destruct title as [t|]; [|rewrite app_nil_r in U; exact U].
+      apply NoDup_remove_1 in U. rewrite app_nil_r in U. exact U. }
+    apply Hne. exact (NoDup_map_In_inj _ _ _ _ _ _ Hl H1 H2 E).
+  Qed.
+
   (* ---------------------------------------------------------------- *)
   (* replacement lookup                                                *)
   (* ---------------------------------------------------------------- *)
@@ -740,6 +799,16 @@ Proof.
     vm_compute. reflexivity.
   - split; vm_compute; reflexivity.
 Qed.
+
+(* regression cases of c22ef06 with the root: title "my type" vs key "my-type";
+   key vs patch-renamed name *)
+Theorem batch_witnesses :
+  add_batch ascii_classes [] [ustr "my-type"] (Some (ustr "my type")) = Err /\
+  add_batch ascii_classes [] [ustr "T"] (Some (ustr "T")) = Err /\
+  add_batch ascii_classes [] [ustr "my-type"] (Some (ustr "my other type")) = Ok [ustr "MyType"; ustr "MyOtherType"] /\
+  add_batch ascii_classes [(ustr "Foo", ustr "Bar")] [ustr "foo"; ustr "Bar"] None = Err /\
+  add_batch ascii_classes [(ustr "Foo", ustr "Baz")] [ustr "foo"; ustr "Bar"] None = Ok [ustr "Baz"; ustr "Bar"].
+Proof. repeat split; vm_compute; reflexivity. Qed.
 
 (* variants: the X fallback and the panic are both reachable *)
 Example variants_fallback_example :
